@@ -42,6 +42,11 @@ StringFamily ==
         tc \in {"none", "lower", "upper"},
         sp \in {<<"none", {}>>, <<"ws", {}>>, <<"chars", {"a"}>>},
         rq \in BOOLEAN}
+    \cup {With(c, [required |-> rq]) : c \in {LogLevelF, AppModeF}, rq \in BOOLEAN}
+ClsCands == {StrV(s) : s \in {<<" ", "I", "N", "F", "O", " ">>, <<"w", "a", "r", "n", "i", "n", "g">>, <<"W", "a", "r", "n">>,
+                               <<"D", "E", "B", "U", "G">>, <<"c", "r", "i", "t", "i", "c", "a", "l", "\n">>, <<"e", "r", "r", "o", "r">>,
+                               <<"p", "r", "o", "d", "u", "c", "t", "i", "o", "n">>, <<" ", "D", "e", "v", "e", "l", "o", "p", "m", "e", "n", "t">>,
+                               <<"p", "r", "o", "d">>, <<>>, <<"i", "n", "f", "o", "x">>}}
 
 NumCands ==
     {IntV(i) : i \in -2..3} \cup {FloatH(h) : h \in {-3, -1, 0, 1, 3, 4}} \cup
@@ -141,7 +146,7 @@ Family ==
       [] Fam = "list"     -> ListFamily
       [] Fam = "dict"     -> DictFamily
 Cands(f) ==
-    CASE Fam = "string"   -> StrCands \cup NonStrings
+    CASE Fam = "string"   -> (IF "cls" \in DOMAIN f THEN ClsCands ELSE StrCands) \cup NonStrings
       [] Fam = "number"   -> IF f = PortF THEN PortCands ELSE NumCands
       [] Fam = "bool"     -> BoolCands
       [] Fam = "ipv4addr" -> AddrCands
